@@ -12,7 +12,7 @@ Faithful on purpose (these are what the emitted code relies on):
   * the operand stack survives jumps; bin_op / if_stmt / while_loop / call clear it; fast_rev2 / store / equ demand exact sizes;
   * array views (`xs[i]`) are pointers until an instruction dereferences them."""
 import z3
-from core import (Fail, Unsupported, OutOfBound, NIL, ListRef, Cell, Fn, Ptr, is_sym, is_int, is_bool, arith, compare, negate,
+from core import (Fail, Unsupported, OutOfBound, NIL, ListRef, Cell, Fn, Ptr, CellPtr, Obj, is_sym, is_int, is_bool, arith, compare, negate,
                   logic_not, logic, equals)
 
 SPECIAL = ("<if>", "<else>", "<while>")
@@ -73,9 +73,13 @@ class Machine:
     # ---------------------------------------------------------------- values
     @staticmethod
     def deref(v):
-        while isinstance(v, Ptr):
-            v = v.lst.items[v.idx]
-        return v
+        while True:
+            if isinstance(v, Ptr):
+                v = v.lst.items[v.idx]
+            elif isinstance(v, CellPtr):
+                v = v.cell.v
+            else:
+                return v
 
     # ---------------------------------------------------------------- one activation (Function::run)
     def run_function(self, name, args, callback):
@@ -227,6 +231,45 @@ class Machine:
                     ops.append(Ptr(lst, idx))
                 else:
                     raise Unsupported("vec_op " + arg)
+            elif op == "make_object":
+                # the object's variables are the cells of the constructor function's top frame (shared, not copied)
+                ops.append(Obj(name, dict(self.stack[-1].vars)))
+            elif op == "export_special":
+                if len(ops) != 1:
+                    raise Fail("export_special", "needs exactly one value")
+                self.stack[-1].vars[a[0]] = Cell(self.deref(ops.pop()), ro=True)
+            elif op == "lookup":
+                if len(ops) != 1:
+                    raise Fail("lookup", "requires a single item on the stack")
+                ob = self.deref(ops.pop())
+                if ob is NIL:
+                    raise Fail("lookup", "nil object")
+                if not isinstance(ob, Obj):
+                    raise Unsupported("lookup `%s` on a non-object" % a[0])
+                c = ob.vars.get(a[0])
+                if c is None:
+                    c = ob.vars.get(ob.cls + "::" + a[0])
+                if c is None:
+                    raise Fail("lookup", "`%s` does not exist" % a[0])
+                ops.append(CellPtr(c))
+            elif op == "ptr_mut":
+                if len(ops) < 2:
+                    raise Fail("ptr_mut", "requires [ptr, value]")
+                nv = ops.pop()
+                pt = ops.pop()
+                if isinstance(nv, (Ptr, CellPtr)):
+                    raise Unsupported("ptr_mut storing a pointer")
+                if isinstance(pt, CellPtr):
+                    pt.cell.v = nv
+                elif isinstance(pt, Ptr):
+                    pt.lst.items[pt.idx] = nv
+                else:
+                    raise Fail("ptr_mut", "expected a mutable heap primitive")
+            elif op == "ld_self":
+                c = self.find_name_in_function(a[0])
+                if c is None:
+                    raise Fail("ld_self", "`%s` not in this stack frame" % a[0])
+                ops.insert(0, c.v)
             elif op == "delete_name_scoped":
                 for nm in a:
                     if nm not in self.stack[-1].vars:
@@ -250,6 +293,11 @@ class Machine:
                     res = equals(l, r)
                 elif sym in ("&&", "||", "^"):
                     res = logic(sym, l, r)
+                elif sym == "is":
+                    if isinstance(l, (Obj, ListRef)) and isinstance(r, (Obj, ListRef)):
+                        res = l is r
+                    else:
+                        res = equals(l, r)
                 else:
                     raise Unsupported("bin_op " + sym)
                 ops.clear()
